@@ -6,7 +6,7 @@ from vlib.framework import Corr
 from harness import iolib as IO
 
 META = {
-    "drivers": ["iocheck"],
+    "drivers": ["iocheck", "impcheck"],
     "rule": "cross case = ((stack1, stack2), content digest, config); non-trivial when narrowing is inexact for some stored value or the "
             "footprint-free layers (interpolators, cast, dereference, permutation) of the two stacks differ. narrow_hw / golden / io_grammar "
             "cases are counted as evaluations; narrow_hw values count as non-trivial when the conversion is inexact",
@@ -334,8 +334,22 @@ def evaluate(ctx, stacks, pairs, data, vals, wvals, gold, cfgs):
 
 
 def run(ctx):
-    stacks, pairs, data, vals, wvals, gold = gen(ctx)
+    # the tie through translation (DESIGN.md §11.6): the array layer's write_binary / read_binary as written (width word from the
+    # scalar type, raw count, the loop reading each component at the width the file declares) are the script the theorems
+    # `Covfie.IO.dump_array` / `load_array` interpret; changed text brings in the thorough tier's files
+    from harness import translib as T
+    tie = T.Tie(ctx, ["io_array"])
+    if tie.changed() and ctx.quick:
+        class Deep:
+            quick, seed, tier, work, replay, prop = False, ctx.seed, ctx.tier, ctx.work, ctx.replay, ctx.prop
+        stacks, pairs, data, vals, wvals, gold = gen(Deep)
+        deepened = True
+    else:
+        stacks, pairs, data, vals, wvals, gold = gen(ctx)
     corr = evaluate(ctx, stacks, pairs, data, vals, wvals, gold, ["dbg", "rel"])
+    tie.merge(corr)
+    if locals().get("deepened"):
+        corr.info["deepened"] = True
     from harness import srcconst
     srcconst.check(corr)        # magic numbers and layer tags read from the source text == the model's constants
     return corr
